@@ -4429,7 +4429,18 @@ _trait_set_validate(trait_object *trait, PyObject *args)
                     if (n == 2) {
                         v1 = PyTuple_GET_ITEM(validate, 1);
                         if (PyTuple_CheckExact(v1)) {
-                            goto done;
+                            /* The validator uses the items as traits. */
+                            Py_ssize_t i, m = PyTuple_GET_SIZE(v1);
+                            for (i = 0; i < m; i++) {
+                                if (!PyObject_TypeCheck(
+                                        PyTuple_GET_ITEM(v1, i),
+                                        ctrait_type)) {
+                                    break;
+                                }
+                            }
+                            if (i == m) {
+                                goto done;
+                            }
                         }
                     }
                     break;
